@@ -6,6 +6,7 @@ LEVEL = {
  "C01": ("dispatch through the real NewRouter/Context/DefaultRouter/denco stack for every request target = concrete prefix ⧺ ≤2 (quick) / ≤4 (thorough) arbitrary path bytes × 5 method spellings × 4 API descriptions; reference dispatcher as oracle; every branch feasibility decided by SMT (or exact byte-domain evaluation), counterexamples replayed natively", "DESIGN.md §2 C01"),
  "C02": ("exhaustive symbolic execution of the real untyped stack (router → secure API → binder → handler → Respond) over 12 requirement structures × global/per-operation × authorizer × all per-scheme outcomes; declarative OR-of-ANDs oracle", "DESIGN.md §2 C02"),
  "C03": ("the real untyped binder (UntypedRequestBinder.Bind → untypedParamBinder → strconv/swag/reflect model) executed symbolically for every parameter text up to the per-kind length over the declaration lattice kinds × locations × required × default × allowEmptyValue × occurrences (quick: two slices of it, thorough: the product incl. 21-byte int64 texts), arrays in every collection format, and a four-parameter operation through the whole untyped stack; oracle = literal denotation [+-]?[0-9]+ with width range, swag's boolean true-set, reference split; declared validations are a nondeterministic stub", "DESIGN.md §2 C03"),
+ "C04": ("client transport and server middleware built from one description and joined by an in-memory wire (RequestURI text → ParseRequestURI, header map, body bytes), executed symbolically end to end through Runtime.Submit → router → binder → handler → Respond → response adapter: every byte string of ≤2 (quick) / ≤3 (thorough) bytes as path value and ≤1 / ≤2 bytes as query, header, urlencoded-form and repeated query values; answer direction with symbolic header and body bytes", "DESIGN.md §2 C04"),
  "C05": ("bounded symbolic execution of the real denco Build/Lookup: every lookup path of ≤4 (quick) / ≤7 (thorough) arbitrary bytes against each catalogue table and build order; naive segment matcher as oracle", "DESIGN.md §2 C05"),
  "C06": ("both binding entry points executed symbolically on the same request for every Content-Type = spelling ⧺ arbitrary bytes / raw bytes, 6 consumes lists, 4 body signalling forms, 2 methods; admission oracle from the statement; differential assertion between the entry points", "DESIGN.md §2 C06"),
  "C07": ("symbolic execution of ParseAccept/NegotiateContentType/NegotiateContentEncoding: totality over arbitrary header bytes, selection oracle over range catalogues with symbolic q digits, q-order preservation with exact (tabulated / monotone-threshold) float encodings up to 21 digits", "DESIGN.md §2 C07"),
